@@ -50,16 +50,17 @@ Definition union_decl_free_n (n : nat) cfg c u root (toks : list tok) : bool :=
 Definition union_decl_free cfg c u root (toks : list tok) : bool :=
   union_decl_free_n (length toks) cfg c u root toks.
 
-(* declarations of a well-formed document: a prefix is a non-empty string bound to a non-empty
-   uri; only the default namespace can be undeclared (xmlns="") *)
-Definition decl_wf (d : option str * str) : bool :=
-  match fst d with
-  | None => true
-  | Some p => nonempty p && nonempty (snd d)
+(* well-formedness used by the theorems: an element does not declare the same prefix twice
+   (XML: duplicate attribute).  [expat collects the declarations of one element in a dict,
+   last wins; libxml2 keeps the first: they could differ only on such ill-formed input] *)
+Fixpoint nodup_keys (d : nsmap) : bool :=
+  match d with
+  | [] => true
+  | (k, _) :: r => negb (ns_mem k r) && nodup_keys r
   end.
 Fixpoint decls_wf (e : xelem) : bool :=
   match e with
-  | XE _ d _ _ ks _ => forallb decl_wf d && forallb decls_wf ks
+  | XE _ d _ _ ks _ => nodup_keys d && forallb decls_wf ks
   end.
 
 (* ---------------------------------------------------------------- correspondence cases *)
